@@ -336,10 +336,10 @@ func runAbrupt(kind, first string) *abruptCase {
 
 // pipelinedCase: a scripted case some of whose items are glued to the item before (written in the same segment).
 type pipelinedCase struct {
-	Pipelined bool    `json:"pipelined"`
-	Name      string  `json:"scenario"`
-	Case      *SCase  `json:"scase"`
-	Clear     []int   `json:"cleartext_identities"` // identities whose credentials went out only in clear before an upgrade that was completed
+	Pipelined bool   `json:"pipelined"`
+	Name      string `json:"scenario"`
+	Case      *SCase `json:"scase"`
+	Clear     []int  `json:"cleartext_identities"` // identities whose credentials went out only in clear before an upgrade that was completed
 }
 
 func (c *pipelinedCase) coq() string {
